@@ -20,8 +20,10 @@ SPEC = os.path.join(vlib.VERIF, "specs", "build")
 STAMP = os.environ.get("VERIF_BUILD_STAMP", "runs")
 
 
-def T(deps=(), srcs=(), gens=(), always=False, pkg="", kind=""):
+def T(deps=(), srcs=(), gens=(), always=False, pkg="", kind="", alt=()):
     d = {"deps": list(deps), "srcs": list(srcs), "gens": list(gens), "always": always}
+    if alt:
+        d["alt"] = list(alt)
     if pkg:
         d["pkg"] = pkg
     if kind:
@@ -40,6 +42,10 @@ SHAPES = {
                "sources": ["s1", "s2"]},
     "srcdir": {"targets": {"T1": T(srcs=["d1"]), "T2": T(deps=["T1"])}, "sources": ["d1"], "dirs": ["d1"]},
     "always": {"targets": {"T1": T(always=True), "T2": T(deps=["T1"]), "T3": T(srcs=["s1"])}, "sources": ["s1"]},
+    "alwaysoff": {"targets": {"T1": T(always=True), "T2": T(deps=["T1"]), "T3": T(srcs=["s1"])}, "sources": ["s1"]},
+    "grow": {"targets": {"T1": T(srcs=["s1"]), "T2": T(deps=["T1"])}, "sources": ["s1"]},
+    # one dependency written with two spellings of its label by two dependents
+    "altlabel": {"targets": {"A": T(srcs=["s1"], pkg="lib"), "B": T(deps=["A"]), "C": T(deps=["A"], alt=["A"]), "D": T(deps=["B", "C"])}, "sources": ["s1"]},
 }
 # shapes whose builds fail by construction (missing / cyclic dependencies): only the event protocol
 # is of interest there
@@ -48,7 +54,11 @@ FAILING_SHAPES = {
     "cycle2": {"targets": {"R": T(deps=["A", "C"]), "A": T(deps=["B"]), "B": T(deps=["A", "C"]), "C": T(srcs=["s1"])}, "sources": ["s1"]},
     "selfdep": {"targets": {"R": T(deps=["A"]), "A": T(deps=["A", "X1"])}, "sources": []},
 }
-RESHAPE = {"chain3": {"targets": {"T1": T(srcs=["s1"]), "T2": T(deps=["T1"])}, "sources": ["s1"]}}
+RESHAPE = {
+    # a project that grows (watch mode: edit, Reload) and one whose always-target stops being one
+    "grow": {"targets": {"T1": T(srcs=["s1"]), "T2": T(deps=["T1"]), "T3": T(deps=["T2"], srcs=["s2"])}, "sources": ["s1", "s2"]},
+    "alwaysoff": {"targets": {"T1": T(), "T2": T(deps=["T1"]), "T3": T(srcs=["s1"])}, "sources": ["s1"]},
+    "chain3": {"targets": {"T1": T(srcs=["s1"]), "T2": T(deps=["T1"])}, "sources": ["s1"]}}
 
 
 def mon_shape(s):
@@ -285,6 +295,9 @@ def harness_cases(tier, sd):
             for kind in ("rename", "swap", "edit"):
                 for rep in range(1 if quick else 3):
                     add("dir", name, [B(top), {"op": "edit_src", "s": d, "kind": kind}, B(top), {"op": "edit_src", "s": d, "kind": kind}, B(top)])
+        # a dry run followed by a plain run (no options, as watch mode passes) on the same Project
+        add("sess", name, [B(top), es, B(top, "dry"), B(top, reuse=True), B(top)])
+        add("sess", name, [B(top), B(top, "always"), B(top, "dry", reuse=True), B(top, reuse=True), B(top)])
         # second run on the same Project object (REPL): output must not be re-delivered
         add("rerun", name, [B(top, rerun=True), es, B(top, rerun=True)])
         # REPL session: several runs and source edits on one loaded Project
@@ -296,6 +309,13 @@ def harness_cases(tier, sd):
             add("sess", name, [B(top), es, B(inner[0], reuse=True), B(top, reuse=True)])
             if others:
                 add("sess", name, [B(top), B(top), es, B(others[-1], reuse=True), B(top, reuse=True), es, B(top, reuse=True)])
+    # watch mode: the project grows, is reloaded in place and built; a later index-preferring
+    # collection must know the new targets
+    add("watch", "grow", [B("T2"), {"op": "reshape"}, {"op": "reload"}, B("T3", reuse=True), B("T3", gc=True, index=True), B("T3")], twin="gc")
+    add("watch", "grow", [B("T2"), {"op": "reshape"}, {"op": "reload"}, B("T3", reuse=True), {"op": "edit_src", "s": "s2"}, {"op": "reload"}, B("T3", reuse=True), B("T3")])
+    # an always-target that stops being one after a dry run
+    add("dry", "alwaysoff", [B("T2"), B("T2", "dry"), {"op": "reshape"}, B("T2"), B("T2")], twin="dry")
+    add("dry", "alwaysoff", [B("T2"), {"op": "reshape"}, B("T2"), B("T2")])
     for name, shape in FAILING_SHAPES.items():
         for top in sorted(shape["targets"]):
             c = {"id": "bad-%s-%d" % (name, len(cases)), "shape": shape, "seed": 0,
